@@ -63,14 +63,42 @@ def gen_fanout(rng):
     return m
 
 
+def gen_ring(rng):
+    """every node of one merged group is the source of exactly one edge (a permutation of the nodes), all edges carry the same delay and are
+    declared in an order that is not the node order: each target must receive the delayed value of ITS source"""
+    m = gen_simple(rng)
+    n = rng.randint(3, 5)
+    op = m["ops"]["O"]
+    nts, nodes = {}, {}
+    for i in range(n):
+        nts[f"T{i}"] = {"name": f"t{i}", "ops": ["O"], "overrides": {"O": {"x": str(F(rng.randint(-4, 4), 2)), "a": str(F(rng.choice([0, 1, 2]))), "k": str(F(rng.choice([1, 2, -1]), rng.choice([1, 2])))}}}
+        nodes[f"n{i}"] = f"T{i}"
+    perm = list(range(n))
+    while any(p == i for i, p in enumerate(perm)) or perm == sorted(perm):
+        rng.shuffle(perm)
+    edges = [{"src": f"n{i}/li/x", "tgt": f"n{perm[i]}/li/r_in", "w": str(F(rng.choice([1, 2, 3, -2]), rng.choice([1, 2])))} for i in range(n)]
+    order = list(range(n))
+    while order == sorted(order):
+        rng.shuffle(order)
+    return {"ops": {"O": op}, "node_templates": nts, "circuit": {"name": "net", "nodes": nodes, "edges": [edges[i] for i in order]}, "_ring": True}
+
+
 def gen_case(rng, tier, solver="euler"):
     for _ in range(100):
-        mdl = gen_fanout(rng) if rng.random() < 0.25 else gen_simple(rng)
+        r_ = rng.random()
+        mdl = gen_fanout(rng) if r_ < 0.25 else (gen_ring(rng) if r_ < 0.37 else gen_simple(rng))
         es = mdl["circuit"]["edges"]
         if not es:
             continue
         dt = rng.choice([F(1), F(1, 2), F(1, 4), F(3, 4), F(2), F(3, 2)])      # incl. step sizes whose reciprocal is not an integer
         any_delay = False
+        ring = mdl.pop("_ring", False)
+        if ring:
+            D = rng.choice([2, 3, 4])
+            for e in es:
+                e["delay"] = C.q2s(D * dt)
+            any_delay = True
+            es = []
         # configurations the implementation refuses loudly are not generated: delayed edges from two different variables of one source operator
         # ("Buffer variable name collision") and several edges between the same pair of variables when one of them is delayed (IndexError)
         pairs = {}
@@ -103,10 +131,11 @@ def gen_case(rng, tier, solver="euler"):
         if len(set(sp)) != len(sp):
             continue
         steps = rng.choice([5, 6, 7])
-        case = {"mdl": mdl, "run": {"T": C.q2s(dt * steps), "dt": C.q2s(dt), "solver": solver, "vectorize": rng.random() < 0.5,
+        case = {"mdl": mdl, "run": {"T": C.q2s(dt * steps), "dt": C.q2s(dt), "solver": solver, "vectorize": rng.random() < 0.5 or ring,
                                     "outputs": {f"v{i}": p for i, p in enumerate(sp)}}, "style": {}, "in_place": rng.random() < 0.5}
         if rng.random() < 0.2:
             case["first_dt"] = C.q2s(dt * rng.choice([2, F(1, 2)]))      # an earlier compilation of the same model with another step size
+            case["first_kept"] = rng.random() < 0.6
         o = N.oracle_traj(case)
         if "error" in o or o["bits"] > 44:
             continue
@@ -119,6 +148,8 @@ def run_twice(case):
     first = json.loads(json.dumps(case))
     first["run"]["dt"] = case["first_dt"]
     first["run"]["T"] = C.q2s(F(case["first_dt"]) * 4)
+    if case.get("first_kept"):
+        first["run"]["kwargs"] = dict(first["run"].get("kwargs") or {}, clear=False)      # the earlier model is not cleared (the default of get_run_func)
     r0 = N.impl_run(first)
     if "error" in r0:
         # the earlier compilation itself failed (e.g. a C04 known finding); what a failed run leaves behind is C13's subject, not C09's
